@@ -21,10 +21,12 @@ def skelElems : List Val → List Val
   | [] => []
   | x :: rest => skelElem x :: skelElems rest
 
-/-- a Condition's expression, reconstructed: a Stack is rebuilt, everything else (a nested
-Condition included) is the very same value -/
+/-- a Condition's expression, reconstructed: a Stack is rebuilt, a Condition is rebuilt (an
+independent native Condition with the same keyword, operator and - recursively - expression),
+everything else is the very same value -/
 def skelExpr : Val → Val
   | .stk _ c xs => .stk .native { kind := c.kind } (skelElems xs)
+  | .cnd _ _ kw op ex => cndVal (Cnd.cond {} (strV kw) op (skelExpr ex))
   | v => v
 end
 
